@@ -49,6 +49,9 @@ func init() {
 			if s <= 0 || s > latest || s < latest-tol {
 				return false, "session outside tolerance"
 			}
+			if (s-1)%bps != 0 {
+				return false, "the height is not the first block of a session"
+			}
 			sctx, err := ctx.PrevCtx(s)
 			if err != nil {
 				return false, "no state at session height"
@@ -170,6 +173,18 @@ func init() {
 			}
 			try(fmt.Sprintf("relay for session height %d", s), map[string]string{"session": fmt.Sprint(s), "class": "session-height"}, ok, w)
 		}
+		// heights that are not session boundaries: inside the running session (at most the node's height) and inside the
+		// previous one
+		for _, s := range []int64{cur + 1, cur - 1} {
+			if s <= 0 || s > r.height+1 {
+				continue
+			}
+			ok, w := authorized("P1", "0001", s)
+			if w == "?" {
+				continue
+			}
+			try(fmt.Sprintf("relay for height %d, which is not a session boundary (current session %d, node height %d)", s, cur, r.height), map[string]string{"session": fmt.Sprint(s), "class": "session-height"}, ok, w)
+		}
 		allow := int64(pc.GlobalPocketConfig.ClientBlockSyncAllowance)
 		for _, d := range []int64{-allow - 1, -allow, allow, allow + 1} {
 			try(fmt.Sprintf("relay with client block height %+d", d), map[string]string{"meta": fmt.Sprint(d), "class": "block-height"}, okNow && d >= -allow && d <= allow, orDefault(why, "client height outside the allowance"))
@@ -178,7 +193,7 @@ func init() {
 
 	register(&Check{ID: "C35", QuickBud: 150 * time.Second, ThorBud: 30 * time.Minute,
 		Run: func(c *ev.Ctx) {
-			c.Rule = "On the real application (this process is servicer N1; relays are executed against a local stub chain) every chain state reached by a menu of application unstake/restake, node jail/unjail/unstake/edit and empty blocks up to the depth is probed through the real HandleRelay with: a well-formed relay, the identical relay again, 19 single-field alterations (token signature/version/client key/app key, client signature, request hash, payload, servicer key, chain, session height, entropy), relays whose fields are valid but unauthorized (other servicer, chain not staked by the app, chain not hosted, unstaked application key), sessions -3..+2 around the current one and client heights at and beyond the sync allowance. A relay must be served, recorded exactly once and answered with a verifying servicer signature iff a reference evaluation of the state says it is authorized; otherwise it must be rejected and the stored evidence unchanged"
+			c.Rule = "On the real application (this process is servicer N1; relays are executed against a local stub chain) every chain state reached by a menu of application unstake/restake, node jail/unjail/unstake/edit and empty blocks up to the depth is probed through the real HandleRelay with: a well-formed relay, the identical relay again, 19 single-field alterations (token signature/version/client key/app key, client signature, request hash, payload, servicer key, chain, session height, entropy), relays whose fields are valid but unauthorized (other servicer, chain not staked by the app, chain not hosted, unstaked application key), sessions -3..+2 around the current one, heights next to the current session boundary that start no session, and client heights at and beyond the sync allowance. A relay must be served, recorded exactly once and answered with a verifying servicer signature iff a reference evaluation of the state says it is authorized; otherwise it must be rejected and the stored evidence unchanged"
 			c.Assume("session membership in the reference comes from pc.NewSession evaluated without caches (node selection itself is decided by C33); two environments: two seats for two nodes, and one seat for two nodes (the node is then often eligible but not selected)")
 			env := defaultEnv()
 			env.SessionNodeCount = 2
